@@ -74,7 +74,7 @@ Cat == [f \in Families |->
     [] f = "Mader"      -> RowF("cjisentrope", "none", "table", {"mader"}, G_Smooth, FALSE, {})
     [] f = "Riemann2D"  -> RowF("gamma2", "none", "root", {"B", "fanB", "Bs", "Ts", "fanT", "T"}, G_Riemann2D, FALSE, {"T"})
     [] f = "SDRZ"       -> RowF("none", "none", "table", {"zone", "ahead"}, {<<"zone", "cont", "ahead">>}, FALSE, {})
-    [] f = "RadShock"   -> RowF("radshock", "none", "ode", {"all"}, G_Smooth, FALSE, {})
+    [] f = "RadShock"   -> RowF("radshock", "none", "ode", {"all", "far-downstream"}, {<<"all", "cont", "far-downstream">>, <<"far-downstream", "cont", "all">>}, FALSE, {})   \* far-downstream: the last tabulated point
     [] f = "SuOlson"    -> RowF("suolson", "none", "root", {"all"}, G_Smooth, FALSE, {})
     [] f = "Blake"      -> RowF("none", "none", "closed", {"he"}, G_Smooth, FALSE, {})
     [] f \in BurnFams   -> RowF("none", "none", "closed", {"detonator", "he"}, G_Smooth, FALSE, {})
